@@ -144,6 +144,9 @@ def lemmas(repo):
     for r in com:
         empty("L-IGN:%s covers '#' to the end of the line" % r.name,
               z3.Intersect(z3.Concat(rx.lit("#"), z3.Star(not_chars("\r\n"))), z3.Complement(r.re)))
+        # ... and nothing beyond it: a comment ends at the first line break of either kind (LF or CR), it never swallows the next line
+        empty("L-IGN:%s stops at the end of the line (LF or CR)" % r.name,
+              z3.Intersect(r.re, z3.Complement(z3.Concat(rx.lit("#"), z3.Star(not_chars("\r\n"))))))
         for e in earlier(r.name):
             empty("L-PRI:comment is not pre-empted by %s" % e.name, z3.Intersect(z3.Concat(e.re, ANY), z3.Concat(rx.lit("#"), ANY)))
     recs.append({"name": PARSER + "::Lexer/L-IGN:blanks and tabs are skipped", "status": "unsat" if set(ignore) == set(" \t") else "sat",
